@@ -173,7 +173,27 @@ def run_case(case):
     return r
 
 
+# fixed deep cases: the first order at which the quadratic term of the
+# S^-1/2 Taylor series (S(2) S(2)) contributes is 4
+DEEP = [
+    {"variant": "ip", "sp1": "h", "sp2": "h", "order": 4, "singles": False,
+     "part": "mp", "i1": ["i"], "i2": ["j"], "size": [2, 2], "alias": True,
+     "sub": "isr", "mseed": 5},
+    {"variant": "ea", "sp1": "p", "sp2": "p", "order": 4, "singles": False,
+     "part": "mp", "i1": ["a"], "i2": ["b"], "size": [2, 2], "alias": False,
+     "sub": "isr", "mseed": 6},
+    {"variant": "ip", "sp1": "h", "sp2": "h", "order": 4, "singles": True,
+     "part": "re", "i1": ["k2"], "i2": ["l"], "size": [3, 2], "alias": True,
+     "sub": "isr", "mseed": 7},
+    {"variant": "pp", "sp1": "ph", "sp2": "ph", "order": 3, "singles": True,
+     "part": "mp", "i1": ["i", "a"], "i2": ["j", "b"], "size": [2, 2],
+     "alias": True, "sub": "isr", "mseed": 8},
+]
+
+
 def run_shard(col, shard, nshards, seed, tier):
+    if shard < len(DEEP):
+        col.run(DEEP[shard], run_case)
     drive(strategy(tier), run_case, N_EXAMPLES[tier], seed * 1000 + shard,
           col)
 
